@@ -103,6 +103,11 @@ impl TxBatchBuilder {
             current_tx_proposal.add_last_ada_to_last_output()?;
             self.asset_groups
                 .set_min_ada_for_tx(&mut current_tx_proposal)?;
+            if current_tx_proposal.get_need_ada()? > Coin::zero()
+                || current_tx_proposal.get_unused_ada()? > Coin::zero()
+            {
+                return Err(JsError::from_str("Unable to balance transaction"));
+            }
             self.tx_proposals.push(current_tx_proposal);
         }
 
